@@ -91,6 +91,72 @@ def _comprehension_vars(node) -> set:
     return out
 
 
+def _has_return(stmts) -> bool:
+    for st in stmts:
+        for n in [st] + list(walk_shallow(st)):
+            if isinstance(n, ast.Return):
+                return True
+    return False
+
+
+def _always_returns(stmts) -> bool:
+    for st in stmts:
+        if isinstance(st, (ast.Return, ast.Raise)):
+            return True
+        if isinstance(st, ast.If) and st.orelse and _always_returns(st.body) and _always_returns(st.orelse):
+            return True
+    return False
+
+
+def returns_structured(stmts) -> bool:
+    """Every `return` sits at the end of the body or in (nested) if-branches of the top level - never inside a loop/try/with."""
+    for st in stmts:
+        if isinstance(st, ast.Return):
+            continue
+        if isinstance(st, ast.If):
+            if not (returns_structured(st.body) and returns_structured(st.orelse)):
+                return False
+        elif _has_return([st]):
+            return False
+    return True
+
+
+def eliminate_returns(stmts: List[ast.stmt], result: str, budget=[0]) -> List[ast.stmt]:
+    """Rewrite a body with structured returns into one without: `return e` becomes `result = e`, the statements after an `if`
+    that returns on some branch are moved into the branches that fall through."""
+    out: List[ast.stmt] = []
+    for i, st in enumerate(stmts):
+        if isinstance(st, ast.Return):
+            v = st.value if st.value is not None else ast.Constant(value=None)
+            out.append(ast.copy_location(ast.Assign(targets=[ast.Name(id=result, ctx=ast.Store())], value=v), st))
+            return out
+        if isinstance(st, ast.If) and _has_return([st]):
+            rest = stmts[i + 1:]
+            body = st.body if _always_returns(st.body) else st.body + clone(rest)
+            orelse = st.orelse if (st.orelse and _always_returns(st.orelse)) else list(st.orelse) + clone(rest)
+            new = ast.If(test=st.test, body=eliminate_returns(body, result) or [ast.Pass()], orelse=eliminate_returns(orelse, result))
+            out.append(ast.copy_location(new, st))
+            return out
+        out.append(st)
+    return out
+
+
+def as_expression(body: List[ast.stmt]) -> Optional[ast.expr]:
+    """`if c: return a` ... `return b`  ->  `a if c else b` (None if the body is not of that shape)."""
+    if len(body) == 1 and isinstance(body[0], ast.Return) and body[0].value is not None:
+        return body[0].value
+    if body and isinstance(body[0], ast.If) and len(body[0].body) == 1 and isinstance(body[0].body[0], ast.Return) \
+            and body[0].body[0].value is not None:
+        rest = body[0].orelse if body[0].orelse else body[1:]
+        if body[0].orelse and body[1:]:
+            return None
+        e = as_expression(list(rest))
+        if e is None:
+            return None
+        return ast.IfExp(test=body[0].test, body=body[0].body[0].value, orelse=e)
+    return None
+
+
 def inlinable(ctx, f: FunctionInfo, call: ast.Call, stack=()) -> Optional[FunctionInfo]:
     targets, how = ctx.cg.resolve_call(f, call)
     if len(targets) != 1 or how in ("by-name", "constructor", "external") or how.startswith("unresolved"):
@@ -112,8 +178,7 @@ def inlinable(ctx, f: FunctionInfo, call: ast.Call, stack=()) -> Optional[Functi
     for n in walk_shallow(g.node):
         if isinstance(n, (ast.Yield, ast.YieldFrom, ast.Await, ast.Global, ast.Nonlocal)):
             return None
-    rets = [n for n in walk_shallow(g.node) if isinstance(n, ast.Return)]
-    if len(rets) > 1 or (rets and rets[0] is not body[-1]):
+    if not returns_structured(body):
         return None
     a = g.node.args
     if a.vararg or a.kwarg:
@@ -213,10 +278,16 @@ class _Inliner:
                 pre.append(asg)
         rn = _Renamer(rename, subst)
         body = [rn.visit(s) for s in body]
-        ret = body[-1] if body and isinstance(body[-1], ast.Return) else None
-        if ret is not None:
-            body = body[:-1]
-        value = ret.value if ret is not None and ret.value is not None else ast.Constant(value=None)
+        n_rets = sum(1 for b in body for n in [b] + list(walk_shallow(b)) if isinstance(n, ast.Return))
+        if n_rets > 1 or (n_rets == 1 and not isinstance(body[-1], ast.Return)):
+            res = "result" + tag
+            body = eliminate_returns(body, res)
+            value = ast.Name(id=res, ctx=ast.Load())
+        else:
+            ret = body[-1] if body and isinstance(body[-1], ast.Return) else None
+            if ret is not None:
+                body = body[:-1]
+            value = ret.value if ret is not None and ret.value is not None else ast.Constant(value=None)
         tail: List[ast.stmt] = []
         if isinstance(st, ast.Return):
             tail = [ast.Return(value=value)]
@@ -259,14 +330,14 @@ class _Inliner:
                 g = inlinable(me.ctx, me.f, c, me.stack)
                 if g is None:
                     return c
-                body = _docless(g.node.body)
-                if len(body) != 1 or not isinstance(body[0], ast.Return) or body[0].value is None:
+                rexpr = as_expression(_docless(g.node.body))
+                if rexpr is None:
                     return c
                 binding = me._bind(g, c)
                 if binding is None:
                     return c
                 me.helpers.append(g.qual)
-                new = _Renamer({}, binding).visit(clone(body[0].value))
+                new = _Renamer({}, binding).visit(clone(rexpr))
                 for n in ast.walk(new):
                     n.lineno, n.col_offset = c.lineno, c.col_offset
                     n.end_lineno, n.end_col_offset = getattr(c, "end_lineno", c.lineno), getattr(c, "end_col_offset", 0)
